@@ -1094,3 +1094,19 @@ package keeper
 //@ func Keeper.BeginBlockCIS
 //@ requires [W-meter-initialised] present(providertypes.SlashMeterKey()) && present(providertypes.SlashMeterReplenishTimeCandidateKey())
 //@ ensures [always-checks-the-meter] $CheckForSlashMeterReplenishment.called
+
+// ---------------------------------------------------------------- C11 / C05: erasing a removed consumer's key assignments
+
+//@ func Keeper.GetAllConsumerAddrsToPrune pure
+//@ ensures [frame] S == old(S) && E == old(E) && X == old(X)
+
+//@ func Keeper.GetAllValidatorsByConsumerAddr pure
+//@ ensures [frame] S == old(S) && E == old(E) && X == old(X)
+
+//@ func Keeper.DeleteKeyAssignments
+//@ loop 1 step [assignment-erased] !k.GetValidatorConsumerPubKey(ctx, consumerId, types.NewProviderConsAddress(validatorConsumerAddr.ProviderAddr)).1
+//@ loop 2 step [reverse-entry-erased] !k.GetValidatorByConsumerAddr(ctx, consumerId, types.NewConsumerConsAddress(validatorConsumerAddr#2.ConsumerAddr)).1
+//@ loop 3 step [prune-record-erased] !present(types.ConsumerAddrsToPruneV2Key(consumerId, consumerAddrsToPrune.PruneTs))
+//@ ensures [every-assignment-visited] $GetAllValidatorConsumerPubKeys.called && $GetAllValidatorsByConsumerAddr.called && $GetAllConsumerAddrsToPrune.called && $GetAllConsumerAddrsToPrune.consumerId == consumerId
+//@ ensures [only-key-assignment-state] forall key bytes :: fam(key) != fam(types.ConsumerValidatorsKey("", types.NewProviderConsAddress(nil))) && fam(key) != FamByConsAddr && fam(key) != FamPrune ==> S[key] == old(S[key])
+//@ ensures [no-deps] E == old(E) && X == old(X)
